@@ -262,6 +262,7 @@ impl TokenKind {
     }
 }
 
+/// A range of byte offsets into the source text. Both ends lie on char boundaries.
 #[derive(Debug, Copy, Clone)]
 pub(crate) struct Span {
     pub(crate) lo: usize,
@@ -270,6 +271,8 @@ pub(crate) struct Span {
 
 struct Lexer {
     chars: Vec<char>,
+    // byte offset into the source of every char in `chars`, followed by the length of the source
+    byte_offsets: Vec<usize>,
     index: usize,
 
     tokens: Vec<Token>,
@@ -277,8 +280,11 @@ struct Lexer {
 
 impl Lexer {
     fn new(source: &str) -> Self {
+        let mut byte_offsets: Vec<usize> = source.char_indices().map(|(i, _)| i).collect();
+        byte_offsets.push(source.len());
         Lexer {
             chars: source.chars().collect(),
+            byte_offsets,
             index: 0,
             tokens: vec![],
         }
@@ -301,22 +307,34 @@ impl Lexer {
         &self.chars[self.index + begin..self.index + end]
     }
 
+    // The lexer scans by char index, but every position it hands out is a byte offset.
+    fn byte_pos(&self, char_index: usize) -> usize {
+        let nchars = self.chars.len();
+        if char_index <= nchars {
+            self.byte_offsets[char_index]
+        } else {
+            // past the end of the source (the EOF token)
+            self.byte_offsets[nchars] + (char_index - nchars)
+        }
+    }
+
+    fn span(&self, lo: usize, hi: usize) -> Span {
+        Span {
+            lo: self.byte_pos(lo),
+            hi: self.byte_pos(hi),
+        }
+    }
+
     fn emit(&mut self, kind: TokenKind) {
         let len = kind.nchars();
-        let span = Span {
-            lo: self.index,
-            hi: self.index + len,
-        };
+        let span = self.span(self.index, self.index + len);
         self.tokens.push(Token { kind, span });
         self.index += len;
     }
 
     fn emit_with_skipped(&mut self, kind: TokenKind, skipped_chars: usize) {
         let len = kind.nchars() + skipped_chars;
-        let span = Span {
-            lo: self.index,
-            hi: self.index + len,
-        };
+        let span = self.span(self.index, self.index + len);
         self.tokens.push(Token { kind, span });
         self.index += len;
     }
@@ -519,7 +537,14 @@ pub(crate) fn tokenize_file(ctx: &mut StaticsContext, file_id: FileId) -> Vec<To
                         Some(c) => (c, c + 1),
                         None => (n_off, n_off),
                     };
-                let s = process_escapes_into(lexer.slice(1, content_end), ctx, file_id);
+                let positions: Vec<usize> = (open + 1..open + content_end).collect();
+                let s = process_escapes_into(
+                    &lexer,
+                    lexer.slice(1, content_end),
+                    &positions,
+                    ctx,
+                    file_id,
+                );
                 emit_string_token(&mut lexer, s, open, open + after_close);
             }
             '\'' => {
@@ -530,7 +555,14 @@ pub(crate) fn tokenize_file(ctx: &mut StaticsContext, file_id: FileId) -> Vec<To
                         Some(c) => (c, c + 1),
                         None => (n_off, n_off),
                     };
-                let s = process_escapes_into(lexer.slice(1, content_end), ctx, file_id);
+                let positions: Vec<usize> = (open + 1..open + content_end).collect();
+                let s = process_escapes_into(
+                    &lexer,
+                    lexer.slice(1, content_end),
+                    &positions,
+                    ctx,
+                    file_id,
+                );
                 emit_string_token(&mut lexer, s, open, open + after_close);
             }
             '/' => {
@@ -568,8 +600,10 @@ pub(crate) fn tokenize_file(ctx: &mut StaticsContext, file_id: FileId) -> Vec<To
                 lexer.index += 2;
             }
             _ => {
-                ctx.errors
-                    .push(Error::UnrecognizedToken(file_id, lexer.index));
+                ctx.errors.push(Error::UnrecognizedToken(
+                    file_id,
+                    lexer.byte_pos(lexer.index),
+                ));
                 lexer.index += 1;
             }
         }
@@ -609,10 +643,18 @@ fn scan_for_unescaped_delim(
     None
 }
 
-// Process escape sequences in offsets [start..end], appending decoded chars to `s`.
-fn process_escapes_into(chars: &[char], ctx: &mut StaticsContext, file_id: FileId) -> String {
+// Process escape sequences in `chars` and return the decoded string.
+// `positions[i]` is the index in the source of `chars[i]` (used to report errors).
+fn process_escapes_into(
+    lexer: &Lexer,
+    chars: &[char],
+    positions: &[usize],
+    ctx: &mut StaticsContext,
+    file_id: FileId,
+) -> String {
     let mut s = "".to_string();
-    let base = 0;
+    // the backslash and the character after it
+    let escape_span = |p: usize| lexer.span(positions[p], positions[p + 1] + 1);
     let mut p = 0;
     let end = chars.len();
     while p < end
@@ -639,21 +681,12 @@ fn process_escapes_into(chars: &[char], ctx: &mut StaticsContext, file_id: FileI
                         p += 4;
                         continue;
                     }
-                    ctx.errors.push(Error::UnrecognizedEscapeSequence(
-                        file_id,
-                        Span {
-                            lo: base + p,
-                            hi: base + p + 1,
-                        },
-                    ));
+                    ctx.errors
+                        .push(Error::UnrecognizedEscapeSequence(file_id, escape_span(p)));
                 }
-                _ => ctx.errors.push(Error::UnrecognizedEscapeSequence(
-                    file_id,
-                    Span {
-                        lo: base + p,
-                        hi: base + p + 1,
-                    },
-                )),
+                _ => ctx
+                    .errors
+                    .push(Error::UnrecognizedEscapeSequence(file_id, escape_span(p))),
             }
             p += 2;
         } else {
@@ -781,7 +814,9 @@ fn handle_multiline_string(lexer: &mut Lexer, ctx: &mut StaticsContext, file_id:
         // no line to measure (all lines after the first are blank): nothing to strip
         indent = 0;
     }
-    let mut string_val = "".to_string();
+    let mut string_val: Vec<char> = vec![];
+    // index in the source of every char of string_val
+    let mut positions: Vec<usize> = vec![];
     for (i, line) in lines.iter().enumerate() {
         let begin = line.begin();
         let end = line.end();
@@ -804,23 +839,25 @@ fn handle_multiline_string(lexer: &mut Lexer, ctx: &mut StaticsContext, file_id:
             slice1 += 1;
         }
 
-        for c in &lexer.chars[slice1..slice2] {
-            string_val.push(*c);
-        }
+        string_val.extend(&lexer.chars[slice1..slice2]);
+        positions.extend(slice1..slice2);
 
         if i < lines.len() - 1 {
+            // the line break that ends this line
             string_val.push('\n');
+            positions.push(slice2);
         }
     }
 
-    let string_val = process_escapes_into(&string_val.chars().collect::<Vec<_>>(), ctx, file_id);
+    let string_val = process_escapes_into(lexer, &string_val, &positions, ctx, file_id);
     emit_string_token(lexer, string_val, lo, lexer.index + next);
 }
 
 fn emit_string_token(lexer: &mut Lexer, s: String, lo: usize, hi: usize) {
+    let span = lexer.span(lo, hi);
     lexer.tokens.push(Token {
         kind: TokenKind::StringLit(s),
-        span: Span { lo, hi },
+        span,
     });
     lexer.index = hi;
 }
